@@ -572,6 +572,11 @@ func (c *Client) updateLightClientIfNeededTo(ctx context.Context, height *int64)
 	)
 	if height == nil {
 		l, err = c.lc.Update(ctx, time.Now())
+		if err == nil && l == nil {
+			// Nothing newer than what the light client already trusts: use
+			// its latest trusted light block.
+			l, err = c.lc.TrustedLightBlock(0)
+		}
 	} else {
 		l, err = c.lc.VerifyLightBlockAtHeight(ctx, *height, time.Now())
 	}
